@@ -332,7 +332,7 @@ def suite_evaluate(rng, tier, shard, nshards):
             n = rng.choice([0, 1, 2, 5, -1])
             kw["n"], args[3] = n, n
         if rng.random() < 0.1:
-            kw["thresh"] = 0.9            # overwritten by evaluate and dropped by filter_kwargs
+            kw["thresh"] = 0.9            # a stray keyword: matches no parameter, dropped by filter_kwargs
         yield Case("pattern.evaluate", [ex(ref), ex(est)] + args,
                    lambda ref=ref, est=est, kw=kw: mir_eval.pattern.evaluate(py(ref), py(est), **kw),
                    tag="%s kw=%s" % (shape_tag(ref, est), ",".join(sorted(kw))), info=info(ref, est, kw=args),
